@@ -13,7 +13,7 @@ def canon_read(res):
     lines, pars, consts, states = res
     return {"lines": [[str(ln), repr(ln.amp), repr(ln.err), ln.spinfactor, ln.lineshape, bool(ln.fix)] for ln in lines],
             "parameters": [[str(i), bool(r.fix), float(r.value), float(r.error)] for i, r in pars.iterrows()],
-            "constants": [[str(i), float(r.value)] for i, r in consts.iterrows()], "states": [str(s) for s in states]}
+            "constants": [[str(i), float(r.value)] for i, r in consts.iterrows()], "states": [[str(s), repr(s.mass), repr(s.width)] for s in states]}
 
 
 def main():
@@ -86,15 +86,15 @@ def main():
                     with open(path, encoding="utf-8") as fh:
                         txt = fh.read()
                     lines, states = cls_.read_ampgen(text=txt)
-                    r = {"read2": [[str(ln), repr(ln.amp)] for ln in lines], "states": [str(s) for s in states],
+                    r = {"read2": [[str(ln), repr(ln.amp)] for ln in lines], "states": [[str(s), repr(s.mass), repr(s.width)] for s in states],
                          "intro": cls_.make_intro(states), "pars": cls_.make_pars()}
                 elif entry == "read_cpp":
                     lines, states = GooFitChain.read_ampgen(path)
-                    r = {"read2": [[str(ln), repr(ln.amp)] for ln in lines], "states": [str(s) for s in states],
+                    r = {"read2": [[str(ln), repr(ln.amp)] for ln in lines], "states": [[str(s), repr(s.mass), repr(s.width)] for s in states],
                          "intro": GooFitChain.make_intro(states), "pars": GooFitChain.make_pars()}
                 elif entry == "read_py":
                     lines, states = GooFitPyChain.read_ampgen(path)
-                    r = {"read2": [[str(ln), repr(ln.amp)] for ln in lines], "states": [str(s) for s in states],
+                    r = {"read2": [[str(ln), repr(ln.amp)] for ln in lines], "states": [[str(s), repr(s.mass), repr(s.width)] for s in states],
                          "intro": GooFitPyChain.make_intro(states), "pars": GooFitPyChain.make_pars()}
                 else:
                     r = {"error": "unknown entry " + entry}
